@@ -67,7 +67,7 @@ def apply_request_impl(path, req, via_cli):
     if req["private"]:
         argv += ["--private"]
     import random as _r
-    return impl.cli(_r.choice([[], [], ["-v"], ["-q"]]) + argv)
+    return impl.cli(_r.choice([[], ["-v"], ["-v"], ["-q"]]) + argv)
 
 
 def spec_apply(meta, req):
